@@ -215,7 +215,13 @@ func (e *Enc) havocComp(st *State, name string) {
 func (e *Enc) fullHavoc(st *State, why string) {
 	e.epochCtr++
 	st.epoch = e.epochCtr
-	st.h = map[string]string{}
+	nh := map[string]string{}
+	for k, v := range st.h {
+		if strings.HasPrefix(k, "L_") || strings.HasPrefix(k, "GHdefer_") || strings.HasPrefix(k, "GHseen_") {
+			nh[k] = v // activation-local storage and ghost iteration state are not heap memory
+		}
+	}
+	st.h = nh
 	na := e.freshConst("alloc", "Int")
 	e.emit(fmt.Sprintf("(assert (>= %s %s))", na, st.alloc))
 	st.alloc = na
